@@ -1536,3 +1536,11 @@ VARIANTS.append({'id': 'repair-f12-revalidate', 'property': 'C10', 'expect': [],
                         panic!("the parent stream moved while the new stream was not visible");
                     }""")],
                  'note': 'sketch of a repair (not claimed to be complete): shows that the rule accepts a re-validation after the publication'})
+
+# round-8 misses: seeded changes used as violating variants for the clauses added for them
+for (_vid, _prop, _rules, _seed, _note) in (
+        ('uni-set-after-attempt', 'C06', ['P2b'], 'C06-r8', 'state:=Uni stored after the single-writer attempt (re-entrant clone from a payload destructor is overwritten)'),
+        ('check-past-args-swapped', 'C09', ['P7h'], 'C09-r8', 'past(cur_count, seq) in wait::check(): an old-lap tag counts as ahead'),
+        ('consumer-count-u16', 'C12', ['W7'], 'C12-r8', 'ReaderMeta.num_consumers narrowed to AtomicU16')):
+    VARIANTS.append({'id': _vid, 'property': _prop, 'expect': _rules, 'edits': [], 'kind': 'violating', 'note': _note,
+                     'patch': _os.path.join(_os.path.dirname(_os.path.dirname(_os.path.abspath(__file__))), 'seeded', _seed, 'patch.diff')})
